@@ -32,13 +32,13 @@ def _exc(ex: Executor, st: State, name: str):
 
 
 def eval_call(ex: Executor, node: ast.Call, st: State):
-    if node.keywords and any(k.arg is None for k in node.keywords):
-        raise Unsupported(f"**kwargs call at {ex.where(node)}")
     f = node.func
     ov0 = getattr(ex.contract, "call_overrides", {})
     txt0 = ast.unparse(f)
     if txt0 in ov0:
         return ov0[txt0](ex, node, st)
+    if node.keywords and any(k.arg is None for k in node.keywords):
+        raise Unsupported(f"**kwargs call at {ex.where(node)}")
     # ---- method calls -------------------------------------------------------
     if isinstance(f, ast.Attribute):
         # super().method(args)
@@ -400,7 +400,11 @@ def call_contract(ex: Executor, node, st, target: str, extra_first: List[SV] = (
     outs = []
     star = [a for a in node.args if isinstance(a, ast.Starred)]
     plain = [a for a in node.args if not isinstance(a, ast.Starred)]
-    for s, k, vs in ex.eval_many(plain + [a.value for a in star] + [kw.value for kw in node.keywords], st):
+    star_nodes = []
+    for a in star:
+        comp = _as_setcomp(ex, a.value)
+        star_nodes.append(comp if comp is not None else a.value)
+    for s, k, vs in ex.eval_many(plain + star_nodes + [kw.value for kw in node.keywords], st):
         if k == "exc":
             outs.append((s, k, vs))
             continue
@@ -430,11 +434,49 @@ def call_contract(ex: Executor, node, st, target: str, extra_first: List[SV] = (
                     bind[p] = ex.new_list(s, z3.IntVal(0), T.EMPTY_ITEMS, K("tuple"), "tuple")
                 else:
                     raise Unsupported(f"default of {p} calling {target}")
+        for a, d in zip(fs.node.args.kwonlyargs, fs.node.args.kw_defaults):
+            if a.arg in kwv:
+                bind[a.arg] = ex.val_of(kwv[a.arg])
+            elif isinstance(d, ast.Constant) and d.value is None:
+                bind[a.arg] = T.None_
+            elif isinstance(d, ast.Constant) and isinstance(d.value, bool):
+                bind[a.arg] = T.True_ if d.value else T.False_
+            else:
+                raise Unsupported(f"keyword-only parameter {a.arg} calling {target}")
         if vararg is not None:
             extra = pos[len(params) :]
-            if star:
-                if extra or len(star) != 1:
-                    raise Unsupported("mixed positional and starred varargs")
+            if star and (extra or len(star) != 1):
+                # f(a, *xs, *ys): the vararg tuple is only known by its MEMBERS (the extra positional
+                # values and the members of every starred operand); order and length are unknown
+                h = Heap(ex, s)
+                t = ex.fresh("varargs")
+                s.assume(cls(t) == K("tuple"), z3.Not(h.alloc(t)))
+                h.set("alloc", z3.Store(h.arr("alloc"), t, True))
+                xx = z3.Const("vx", Val)
+                jj = z3.Int("vj")
+                member = [xx == ex.val_of(v) for v in extra]
+                n = h.llen(t)
+                s.assume(n >= 0)
+                for v in extra:
+                    j0 = ex.fresh("vpos", T.I)
+                    s.assume(j0 >= 0, j0 < n, h.lget(t, j0) == ex.val_of(v))
+                for a, v in zip(star, starvals):
+                    kind = "set" if _as_setcomp(ex, a.value) is not None else ex.container_kind(a.value)
+                    src = as_val(v)
+                    if kind in ("list", "tuple", "seq"):
+                        member.append(z3.Exists([jj], z3.And(jj >= 0, jj < h.llen(src), xx == h.lget(src, jj))))
+                        j2 = z3.Int("vj2")
+                        s.assume(T.forall([j2], z3.Implies(z3.And(j2 >= 0, j2 < h.llen(src)), z3.Exists([jj], z3.And(jj >= 0, jj < n, h.lget(t, jj) == h.lget(src, j2)))), patterns=[h.lget(src, j2)]))
+                    elif kind in ("dict", "set"):
+                        inn = h.arr("dhas")[src][xx]
+                        member.append(inn)
+                        s.assume(T.forall([xx], z3.Implies(inn, z3.Exists([jj], z3.And(jj >= 0, jj < n, h.lget(t, jj) == xx))), patterns=[inn]))
+                    else:
+                        raise Unsupported(f"starred argument of kind {kind}")
+                mem = z3.Or(*member)
+                s.assume(T.forall([jj], z3.Implies(z3.And(jj >= 0, jj < n), z3.substitute(mem, (xx, h.lget(t, jj)))), patterns=[h.lget(t, jj)]))
+                bind[vararg] = t
+            elif star:
                 bind[vararg] = ("star", as_val(starvals[0]))
             else:
                 arr = T.EMPTY_ITEMS
@@ -557,6 +599,9 @@ class CalleeCtx(SpecCtx):
 
     def fresh(self, o):
         return z3.And(z3.Not(self._pre("alloc")[o]), self.alloc(o))
+
+    def alloc0(self, o):
+        return self._pre("alloc")[o]
 
 
 class CalleePostCtx(CalleeCtx):
@@ -704,6 +749,16 @@ def m_add(ex, node, st, rt):
 
 
 def m_copy(ex, node, st, rt):
+    if ex.container_kind(node.func.value) == "set":
+        h = Heap(ex, st)
+        bad = st.fork().assume(z3.Not(isinst(rt, "set")))
+        outs = []
+        if ex.feasible(bad):
+            outs.append(_exc(ex, bad, "AttributeError"))
+        st.assume(isinst(rt, "set"))
+        o = ex.new_dict(st, h.arr("dhas")[rt], T.NOGET, h.dlen(rt), K("set"), "set")
+        outs.append((st, "val", sv_val(o)))
+        return outs
     if ex.container_kind(node.func.value) != "dict":
         raise Unsupported("copy on non-dict")
     h = Heap(ex, st)
@@ -805,7 +860,62 @@ def _comp_domain(ex, gen, st):
                 su.env[tgt.id] = sv_val(items[u])
 
         return s, u, (lambda x: z3.And(x >= 0, x < n)), bind, True, n
+    if kind in ("dict", "set") and not enum:
+        # iterating a dict / set: its keys / members (order not modelled)
+        s.assume(z3.Or(isinst(qt, "dict"), isinst(qt, "set"), isinst(qt, "frozenset")))
+        h = Heap(ex, s)
+        u = ex.fresh("ck")
+        has = h.arr("dhas")[qt]
+
+        def bind_k(su):
+            su.env[gen.target.id] = sv_val(u)
+
+        return s, u, (lambda x: has[x]), bind_k, False, None
     raise Unsupported(f"comprehension over kind {kind}")
+
+
+class _Skolemizer:
+    """constants created while the element expression was evaluated on the symbolic element `u`
+    (results of callee contracts, havoc values) denote one value PER element: they are replaced by
+    applications of fresh functions of `u`, so that the later substitution u := u' renames them too"""
+
+    def __init__(self, ex, n0, u):
+        self.ex, self.n0, self.u, self.map = ex, n0, u, {}
+
+    def __call__(self, term):
+        import re
+
+        todo, seen, subs = [term], set(), []
+        while todo:
+            t = todo.pop()
+            if t.get_id() in seen:
+                continue
+            seen.add(t.get_id())
+            if z3.is_const(t) and t.decl().kind() == z3.Z3_OP_UNINTERPRETED:
+                m = re.search(r"!(\d+)$", t.decl().name())
+                if m and int(m.group(1)) > self.n0 and not t.eq(self.u):
+                    key = t.decl().name()
+                    if key not in self.map:
+                        import os
+
+                        if os.environ.get("PYVC_TRACE_SKOLEM"):
+                            print("skolemized in comprehension:", self.ex.contract.target, key)
+                        f = z3.Function("sk_" + key, self.u.sort(), t.sort())
+                        self.map[key] = (t, f(self.u))
+                    subs.append(self.map[key])
+            elif z3.is_app(t):
+                todo.extend(t.children())
+            elif z3.is_quantifier(t):
+                todo.append(t.body())
+        return z3.substitute(term, *subs) if subs else term
+
+
+def _sk_sv(sk, v):
+    from .symexec import SV
+
+    if isinstance(v, SV) and v.kind in ("val", "bool", "int"):
+        return SV(v.kind, sk(v.t))
+    return v
 
 
 def _comp_eval(ex, node, st, exprs):
@@ -834,10 +944,13 @@ def _comp_eval(ex, node, st, exprs):
     bind(su)
     base_len = len(su.pc)
     heap_before = dict(su.heap)
+    n0 = ex.fresh_n
     outs = ex.eval_many(exprs, su)
+    sk = _Skolemizer(ex, n0, u)
     oks, excs = [], []
     for so, k, vs in outs:
-        cond = z3.And(*so.pc[base_len:]) if len(so.pc) > base_len else z3.BoolVal(True)
+        cond = sk(z3.And(*so.pc[base_len:])) if len(so.pc) > base_len else z3.BoolVal(True)
+        vs = sk(vs) if k == "exc" else [_sk_sv(sk, v) for v in vs]
         for hn, arr in so.heap.items():
             before = heap_before[hn] if hn in heap_before else T.heap0(hn)
             if not arr.eq(before) and hn != "alloc":
@@ -1228,6 +1341,18 @@ def b_getattr(ex, node, st):
         if k == "exc":
             outs.append((s, k, vs))
             continue
+        if len(node.args) == 2 and ast.unparse(node.args[1]) in getattr(ex.contract, "dict_attrs", ()):
+            # getattr(obj, NAME) for a name that is only ever stored in the instance dictionary
+            # (never a class attribute / slot: stated assumption): a lookup in obj.__dict__
+            o, key = ex.val_of(vs[0]), ex.val_of(vs[1])
+            h = Heap(ex, s)
+            has = h.dhas(T.idict(o), key)
+            miss = s.fork().assume(z3.Not(has))
+            if ex.feasible(miss):
+                outs.append(_exc(ex, miss, "AttributeError"))
+            s.assume(has)
+            outs.append((s, "val", sv_val(h.dget(T.idict(o), key))))
+            continue
         outs.append((s, "val", sv_val(T.dynattr(ex.val_of(vs[0]), ex.val_of(vs[1])))))
     return outs
 
@@ -1235,14 +1360,89 @@ def b_getattr(ex, node, st):
 BUILTINS["getattr"] = b_getattr
 
 
+def b_hasattr(ex, node, st):
+    outs = []
+    if ast.unparse(node.args[1]) not in getattr(ex.contract, "dict_attrs", ()):
+        raise Unsupported("hasattr on a name that is not declared an instance-dict attribute")
+    for s, k, vs in ex.eval_many(node.args, st):
+        if k == "exc":
+            outs.append((s, k, vs))
+            continue
+        outs.append((s, "val", sv_bool(Heap(ex, s).dhas(T.idict(ex.val_of(vs[0])), ex.val_of(vs[1])))))
+    return outs
+
+
+BUILTINS["hasattr"] = b_hasattr
+
+
+def _as_setcomp(ex, arg):
+    """map(f, xs) / generator expression -> the equivalent set comprehension node"""
+    if isinstance(arg, ast.GeneratorExp):
+        comp = ast.SetComp(elt=arg.elt, generators=arg.generators)
+    elif isinstance(arg, ast.Call) and isinstance(arg.func, ast.Name) and arg.func.id == "map" and len(arg.args) == 2 and not arg.keywords:
+        x = ast.Name(id="_map_x", ctx=ast.Load())
+        call = ast.Call(func=arg.args[0], args=[x], keywords=[])
+        gen = ast.comprehension(target=ast.Name(id="_map_x", ctx=ast.Store()), iter=arg.args[1], ifs=[], is_async=0)
+        comp = ast.SetComp(elt=call, generators=[gen])
+    else:
+        return None
+    ast.copy_location(comp, arg)
+    ast.fix_missing_locations(comp)
+    return comp
+
+
+def m_clear(ex, node, st, rt):
+    """s.clear() / d.clear()"""
+    if ex.container_kind(node.func.value) not in ("set", "dict"):
+        raise Unsupported("clear on non-set/dict")
+    s = st
+    ex.check_store_allowed(s, rt, node)
+    ex.on_store(s, rt)
+    h = Heap(ex, s)
+    h.set("dhas", z3.Store(h.arr("dhas"), rt, z3.K(Val, False)))
+    h.set("dlen", z3.Store(h.arr("dlen"), rt, z3.IntVal(0)))
+    return [(s, "val", sv_val(T.None_))]
+
+
+CONTAINER_METHODS["clear"] = m_clear
+
+
+def m_difference_update(ex, node, st, rt):
+    """s.difference_update(iterable): the members of the iterable are removed"""
+    if ex.container_kind(node.func.value) != "set":
+        raise Unsupported("difference_update on non-set")
+    comp = _as_setcomp(ex, node.args[0])
+    srcs = eval_setcomp(ex, comp, st) if comp is not None else ex.eval(node.args[0], st)
+    outs = []
+    for s, k, v in srcs:
+        if k == "exc":
+            outs.append((s, k, v))
+            continue
+        src = as_val(v)
+        ex.check_store_allowed(s, rt, node)
+        ex.on_store(s, rt)
+        h = Heap(ex, s)
+        nh = ex.fresh("sdh", T.ArrVB)
+        kk = z3.Const("kk", Val)
+        s.assume(T.forall([kk], nh[kk] == z3.And(h.arr("dhas")[rt][kk], z3.Not(h.arr("dhas")[src][kk])), patterns=[nh[kk]]))
+        nl = ex.fresh("sdl", T.I)
+        s.assume(nl <= h.dlen(rt), nl >= 0)
+        h.set("dhas", z3.Store(h.arr("dhas"), rt, nh))
+        h.set("dlen", z3.Store(h.arr("dlen"), rt, nl))
+        outs.append((s, "val", sv_val(T.None_)))
+    return outs
+
+
+CONTAINER_METHODS["difference_update"] = m_difference_update
+
+
 def m_update(ex, node, st, rt):
     """d.update(other_dict): keys of other added / overwritten; s.update(iterable): members added"""
     outs = []
     if ex.container_kind(node.func.value) == "set":
         arg = node.args[0]
-        if isinstance(arg, ast.GeneratorExp):
-            comp = ast.SetComp(elt=arg.elt, generators=arg.generators)
-            ast.copy_location(comp, arg)
+        comp = _as_setcomp(ex, arg)
+        if comp is not None:
             srcs = eval_setcomp(ex, comp, st)
         else:
             srcs = ex.eval(arg, st)
@@ -1405,7 +1605,7 @@ def eval_setcomp(ex, node, st):
         ub = z3.Const("cu", u.sort())
         x = z3.Const("cx", Val)
         ex_ = lambda t: z3.substitute(vals[0], (u, t))  # noqa: E731
-        g.assume(T.forall([ub], z3.Implies(dom(ub), has[ex_(ub)])))
+        g.assume(T.forall([ub], z3.Implies(dom(ub), has[ex_(ub)]), patterns=[has[ex_(ub)]]))
         g.assume(T.forall([x], z3.Implies(has[x], z3.Exists([ub], z3.And(dom(ub), x == ex_(ub)))), patterns=[has[x]]))
         ln = ex.fresh("scl", T.I)
         g.assume(ln >= 0, (ln == 0) == z3.Not(z3.Exists([ub], dom(ub))))
